@@ -1,6 +1,7 @@
 """C12 — cone orders are their cones' preorders; bundled cones have the stated geometry."""
 from __future__ import annotations
 
+import itertools
 import math
 from fractions import Fraction
 
@@ -144,6 +145,20 @@ def replay(case):
         return {"reproduced": bool(bad), "detail": f"law {law} on real code: violated={bool(bad)}"}
     if case["kind"] == "theta":
         return _replay_theta(case)
+    if case["kind"] == "tie":
+        stub_alpha = {"get_alpha_vec": lambda W: np.ones((W.shape[0], 1))}
+        with patched((oc, stub_alpha)):
+            orders = {f"ConeOrder3D({t})": (lambda t=t: vo.ConeOrder3D(t)) for t in ("acute", "obtuse", "right")}
+            orders["0.1·[[1,-2,4],[4,1,-2],[-2,4,1]]"] = lambda: vo.PolyhedralConeOrder(oc.OrderingCone(0.1 * np.array([[1, -2, 4], [4, 1, -2], [-2, 4, 1.0]])))
+            orders["0.3·[[2,-1],[-1,3]]"] = lambda: vo.PolyhedralConeOrder(oc.OrderingCone(0.3 * np.array([[2, -1], [-1, 3.0]])))
+            orders["ComponentwiseOrder(3)"] = lambda: vo.ComponentwiseOrder(3)
+            order = orders[case["cone"]]()
+        a, b = np.array(case["a"], dtype=float), np.array(case["b"], dtype=float)
+        Wx = [[Fraction(float(v)) for v in row] for row in np.asarray(order.ordering_cone.W, dtype=float)]
+        exact = all(sum(w * (Fraction(float(p)) - Fraction(float(q))) for w, p, q in zip(row, a, b)) >= 0 for row in Wx)
+        got = bool(np.asarray(order.dominates(a[None, :], b[None, :]) if case.get("mode") == "batched" else order.dominates(a, b)).all())
+        return {"reproduced": bool(got != exact), "detail": f"dominates({a.tolist()}, {b.tolist()}) = {got}; exact facet test of a − b on the "
+                f"cone's own (binary64) matrix: {exact}"}
     if case["kind"] == "concrete":
         return {"reproduced": True, "detail": case.get("detail", "concrete exact computation on the real "
                                                          "constructor's output")}
@@ -344,6 +359,98 @@ def cones3d_task(tier):
 
 
 # ------------------------------------------------------------------------------------------
+def _int_rows(W):
+    """integer rows R with W[k] = c_k·R[k] exactly in binary64 up to power-of-two scalings (so that R·d = 0 ⇔ the exact facet
+    value of the float matrix is 0), or None"""
+    R = []
+    for row in np.asarray(W, dtype=float):
+        nz = [abs(v) for v in row if v != 0]
+        if not nz:
+            return None
+        base = min(nz)
+        ints = []
+        for v in row:
+            q = Fraction(float(v)) / Fraction(float(base))
+            if q.denominator != 1 or abs(q.numerator) > 64:
+                return None
+            ints.append(int(q))
+        R.append(ints)
+    return np.array(R, dtype=np.int64)
+
+
+def ties_task(tier):
+    """binary64 clause (concrete, exhaustive on a lattice — the symbolic laws above are in exact reals): pairs whose
+    difference lies exactly on a facet, away from the origin.  For cones whose rows are integer multiples of one float the
+    exact facet values of an integer difference are integers times that float, so 'dominates ⇔ every facet value ≥ 0' has
+    an exact answer; the real dominates() must give it for every offset, batched and single."""
+    vo, oc, uu = _mods()
+    out = {"harness": "lattice_ties(binary64)", "paths": 0, "transitions": 0, "queries": {}, "solver_s": 0.0, "violations": [],
+           "inconclusive": [], "obligations": {}, "samples": [], "recorded": []}
+    stub_alpha = {"get_alpha_vec": lambda W: np.ones((W.shape[0], 1))}
+    cones = []
+    with patched((oc, stub_alpha)):
+        for t in ("acute", "obtuse", "right"):
+            cones.append((f"ConeOrder3D({t})", vo.ConeOrder3D(t)))
+        cones.append(("0.1·[[1,-2,4],[4,1,-2],[-2,4,1]]", vo.PolyhedralConeOrder(oc.OrderingCone(0.1 * np.array([[1, -2, 4], [4, 1, -2], [-2, 4, 1.0]])))))
+        cones.append(("0.3·[[2,-1],[-1,3]]", vo.PolyhedralConeOrder(oc.OrderingCone(0.3 * np.array([[2, -1], [-1, 3.0]])))))
+        cones.append(("ComponentwiseOrder(3)", vo.ComponentwiseOrder(3)))
+    span = 4 if tier == "quick" else 6
+    for name, order in cones:
+        W = np.asarray(order.ordering_cone.W, dtype=float)
+        R = _int_rows(W)
+        if R is None:
+            out["recorded"].append({"cone": name, "skipped": "rows are not integer multiples of one float"})
+            continue
+        m = W.shape[1]
+        grid = np.array(list(itertools.product(range(-2, 3), repeat=m)), dtype=float)
+        # differences with entries in {0, ±1, ±2, ±4}: every product w_kj·d_j is a power-of-two multiple of one float and a
+        # vanishing three-term sum of such multiples has exact partial sums, so the binary64 value of W(a − b) is exact.
+        # (Other lattice ties are outside: d = (1, 2, 3) lies on the facet 4x + y − 2z = 0 of the acute cone, but the rounded
+        # dot product of the correct formula is −1 ulp there — rounding of the reference formula itself, not a defect.)
+        D = np.array([d for d in itertools.product((-4, -2, -1, 0, 1, 2, 4), repeat=m)], dtype=float)
+        facet = (D @ R.T.astype(float))
+        want_d = np.all(facet >= 0, axis=1)
+        on_facet = np.any(facet == 0, axis=1) & want_d          # ties: inside, on at least one facet
+        Dt = D[on_facet]
+        offs = np.concatenate([grid * s for s in ((1.0, 0.25, 3.0) if tier == "quick" else (1.0, 0.25, 3.0, 0.1 * 8, 7.0))])
+        offs = offs[np.all(np.abs(offs) <= span * 4, axis=1)]
+        n_checked = 0
+        bad = None
+        for d in Dt:
+            B = offs
+            Aa = B + d[None, :]
+            if not np.array_equal(Aa - B, np.repeat(d[None, :], len(B), axis=0)):
+                keep = np.all((Aa - B) == d[None, :], axis=1)    # offsets where a − b is not exact are outside this clause
+                B, Aa = B[keep], Aa[keep]
+            got = np.asarray(order.dominates(Aa, B)).astype(bool)
+            n_checked += len(B)
+            if not got.all():
+                i = int(np.argmin(got))
+                bad = {"cone": name, "a": Aa[i].tolist(), "b": B[i].tolist(), "d": d.tolist(), "mode": "batched"}
+                break
+            for i in range(0, len(B), max(1, len(B) // 7)):
+                g1 = bool(np.asarray(order.dominates(Aa[i], B[i])).all())
+                n_checked += 1
+                if not g1:
+                    bad = {"cone": name, "a": Aa[i].tolist(), "b": B[i].tolist(), "d": d.tolist(), "mode": "single"}
+                    break
+            if bad:
+                break
+        out["paths"] += 1
+        out["transitions"] += n_checked
+        out["recorded"].append({"cone": name, "ties": int(len(Dt)), "offsets": int(len(offs)), "pairs_checked": int(n_checked)})
+        if bad:
+            out["violations"].append({"obligation": "a pair whose difference lies exactly on a facet is dominated, whatever the common offset",
+                                      "reproduced": True, "case": {"kind": "tie", **bad},
+                                      "replay_detail": f"dominates({bad['a']}, {bad['b']}) is False ({bad['mode']}) although a − b = {bad['d']} "
+                                                       f"satisfies every facet inequality of {name} (one with equality)",
+                                      "features": {"cone": name, "claim": "lattice tie", "mode": bad["mode"]}})
+    out["concrete_validations"] = out["transitions"]
+    out["samples"] = out["recorded"][:2]
+    return out
+
+
+# ------------------------------------------------------------------------------------------
 def icecream_task(K, theta, tier):
     """real compute_ice_cream_cone executed in exact rational arithmetic (sqrt as solver variable);
     θ concrete (grid) or symbolic ('sym': tan(π/2−θ)=cosθ/sinθ with unit-circle variables)"""
@@ -462,6 +569,7 @@ def tasks(tier, seed):
     for nm, Wi in (("int_orthant2", [[1, 0], [0, 1]]), ("int_skew2", [[2, -1], [-1, 3]]), ("int_3facets", [[1, 0], [0, 1], [1, 1]]),
                    ("int_3d", [[2, -1, 0], [0, 2, -1], [-1, 0, 2]])):
         ts.append({"id": f"laws[{nm}]", "fn": "laws_task", "args": {"cone": nm, "W": Wi, "tier": tier, "int_W": True}})
+    ts.append({"id": "lattice_ties", "fn": "ties_task", "args": {"tier": tier}, "weight": 5})
     ts.append({"id": "laws[symbolic 2x2]", "fn": "laws_task",
                "args": {"cone": "symbolic2x2", "W": None, "tier": tier, "symbolic_W": True, "m": 2, "K": 2},
                "weight": 5})
